@@ -1,9 +1,9 @@
 CONSTANTS
   T = 2
   MaxKeys = 2
-  Servers = {"A"}
+  Servers = {"A", "B"}
   MaxAge = 2
-  StampOnRevoke = TRUE
+  StampOnRevoke = FALSE
   ReloadOnCommit = TRUE
 INIT Init
 NEXT Next
